@@ -608,6 +608,31 @@ func c09Kauri(c *Ctx) {
 	} else {
 		c.Unresolved("C09.7/begin", "Kauri.begin", "anchor missing")
 	}
+	// the wait timer belongs to the view it was started in: the view put into WaitTimerExpiredEvent is read before the
+	// wait, so that a timer left over from the previous view is recognised as stale by onWaitTimerExpired
+	if wa := p.Method("protocol/comm", "Kauri", "waitToAggregate"); wa != nil {
+		fw := NewFlow(p, wa)
+		ok, n := true, 0
+		var sleep ssa.Instruction
+		eachInstr(wa, func(in ssa.Instruction) {
+			if call, isCall := in.(*ssa.Call); isCall && call.Call.StaticCallee() != nil && call.Call.StaticCallee().String() == "time.Sleep" {
+				sleep = in
+			}
+		})
+		for _, e := range p.constructSites(namedType(p, "protocol/comm", "WaitTimerExpiredEvent")) {
+			if e.Fn != wa || e.Alloc == nil {
+				continue
+			}
+			n++
+			v := complitField(e.Alloc, "currentView")
+			ld, isLoad := v.(*ssa.UnOp)
+			if !isLoad || sleep == nil || !strings.HasSuffix(fw.K.Key(v), kKauri+"currentView") || !precedes(ld, sleep) {
+				ok = false
+			}
+		}
+		c.Check(ok && n > 0, "C09.7/timer", "waitToAggregate: the timer carries the view it was started in", p.FuncPos(wa),
+			"currentView is read before time.Sleep and that value is put into WaitTimerExpiredEvent", "the view is read after the wait (or not from currentView): a timer of the previous view looks current and flushes the next view's aggregate")
+	}
 	// only contributions for the view being aggregated are merged
 	if ocr := p.Method("protocol/comm", "Kauri", "onContributionRecv"); ocr != nil {
 		fo := NewFlow(p, ocr)
